@@ -110,11 +110,13 @@ theorem stream_second_validation_changes_nothing (c : Cfg) (outcome : Bytes → 
 /-- **n validations = 1 validation (stream).**  However often the request is validated again, the stream stays as
 the first validation left it, and every validation returns the first one's verdict. -/
 theorem stream_n_validations (c : Cfg) (outcome : Bytes → BodyOutcome) (r : Req) (data : Bytes)
-    (h : Coherent r data) (H : ∀ nd, outcome data = .rewrite nd → nd ≠ [] ∧ outcome nd = .accept) (n : Nat) :
+    (h : Coherent r data)
+    (H : ∀ nd, outcome data = .rewrite nd → nd ≠ [] ∧ (outcome nd = .accept ∨ outcome nd = .rewrite nd)) (n : Nat) :
     iterN (fun x => (validateStream c outcome x).1) (n + 1) r = (validateStream c outcome r).1 ∧
     (validateStream c outcome (iterN (fun x => (validateStream c outcome x).1) (n + 1) r)).2 = (validateStream c outcome r).2 := by
   have hid : (validateStream c outcome (validateStream c outcome r).1).1 = (validateStream c outcome r).1 :=
-    validateStream_idem c outcome r data h (fun nd nd' h1 h2 => by rw [(H nd h1).2] at h2; cases h2)
+    validateStream_idem c outcome r data h (fun nd nd' h1 h2 => by
+      rcases (H nd h1).2 with h3 | h3 <;> rw [h3] at h2 <;> cases h2; rfl)
   have e := iterN_of_idem (fun x => (validateStream c outcome x).1) r hid n
   exact ⟨e, by rw [e]; exact validateStream_idem_verdict c outcome r data h H⟩
 
@@ -219,6 +221,13 @@ theorem defaults_applied (c : Ctx) (hc : c.setDefaults = true) (a : Attr) (req p
     (h : visit c (.obj a req props addl) (.obj kvs) = some v') :
     ∃ kvs', v' = .obj kvs' ∧ ∀ p ∈ props, slotEmpty (Body.lookup p.1 kvs') = true → dfltFor c p.2.attr = none :=
   visit_obj_settled c hc a req props addl kvs v' h
+
+/-- **The body is re-encoded only for a reason … almost.**  If the `DefaultsSet` callback ran nowhere during an accepted
+visit (`touched = false`), the forwarded value is the received one.  The converse fails (class `ReencodedUnchanged`,
+F-C13-11, witness in Part 4): the callback also runs for a default written into a discarded candidate's copy. -/
+theorem callback_not_run_value_unchanged (c : Ctx) (s : S) (hw : wf s = true) (v v' : J)
+    (h : visit c s v = some v') (ht : touched c s v = false) : v' = v :=
+  untouched_unchanged c s hw v v' h ht
 
 /-- **defaults_idempotent (no compositions).** For schemas built from objects, arrays and leaves — any depth —
 validating the forwarded value again accepts it and changes nothing. -/
@@ -851,41 +860,55 @@ theorem decoders_without_encoder :
      ("application/x-yaml", "YamlBodyDecoder"), ("application/yaml", "YamlBodyDecoder"),
      ("multipart/form-data", "MultipartBodyDecoder"), ("text/csv", "CsvBodyDecoder"), ("text/plain", "PlainBodyDecoder")] := by decide
 
-/-- **The body phase = spec (partial).**  Full statement: `bodyOutcome = specOutcome` — an accepted body whose defaults
-were set is forwarded re-encoded.  It fails where the body was decoded by a decoder for which no encoder is registered
-(`NoBodyEncoder`, what is left of finding F-C13-8: YAML; witness below); outside that class it holds, for every
-Content-Type header (with or without parameters), every set of declared media types, every (well-formed) schema. -/
+/-- **The body phase = spec (partial).**  Full statement: `bodyOutcome = specOutcome` — an accepted body is forwarded
+re-encoded iff a default was set in it.  It fails where the body was decoded by a decoder for which no encoder is
+registered (`NoBodyEncoder`, what is left of finding F-C13-8: YAML) and where the body is re-encoded although the value
+is unchanged (`ReencodedUnchanged`, F-C13-11: a default set only in a discarded oneOf/anyOf candidate) — witnesses
+below; outside these two classes it holds, for every Content-Type header (with or without parameters), every set of
+declared media types, every (well-formed) schema. -/
 theorem body_outcome_eq_spec_partial (c : Ctx) (declared : List (String × Option S)) (hw : declaredWf declared = true)
     (header : String) (cd : Codec) (data : Stream.Bytes)
-    (hx : NoBodyEncoder c declared header cd data = false) :
+    (hx : NoBodyEncoder c declared header cd data = false) (hy : ReencodedUnchanged c declared header cd data = false) :
     bodyOutcome c declared header cd data = specOutcome c declared header cd data := by
   rw [bodyOutcome_eq, specOutcome_eq]
   rw [noBodyEncoder_eq] at hx
+  rw [reencodedUnchanged_eq] at hy
   split
   · rfl
   · cases hg : contentGet (declared.map (·.1)) header with
     | none => rfl
     | some key =>
-      simp only [hg] at hx ⊢
+      simp only [hg] at hx hy ⊢
       cases hs : schemaOf key declared with
       | none => rfl
       | some os =>
         cases os with
         | none => rfl
         | some s =>
-          simp only [hs] at hx ⊢
+          simp only [hs] at hx hy ⊢
           cases hd : decoded header cd data with
           | none => rfl
           | some v =>
-            simp only [hd] at hx ⊢
-            rw [← visit_eq_spec c s (schemaOf_wf key declared s hw hs) v]
+            simp only [hd] at hx hy ⊢
+            have hwf := schemaOf_wf key declared s hw hs
+            rw [← visit_eq_spec c s hwf v]
             cases hv : visit c s v with
             | none => rfl
             | some v' =>
-              simp only [hv] at hx ⊢
+              simp only [hv, DiscardedCandidateTouches] at hx hy ⊢
               unfold finish finishSpec
-              cases h1 : c.setDefaults <;> cases h2 : J.beq v' v <;> cases h3 : hasEncoder (base header) <;>
-                simp_all
+              cases h1 : c.setDefaults with
+              | false => simp
+              | true =>
+                simp only [h1, Bool.true_and] at hx hy ⊢
+                cases ht : touched c s v with
+                | false =>
+                  have e := untouched_unchanged c s hwf v v' hv ht
+                  subst e
+                  simp [J.beq_refl]
+                | true =>
+                  simp only [ht, Bool.true_and, Bool.and_true, Bool.not_eq_false'] at hx hy
+                  simp [hx, hy]
 
 /-- A text/plain body is never rewritten: it decodes to a string, and a string is forwarded as it is. -/
 theorem plain_body_never_rewritten (c : Ctx) (declared : List (String × Option S)) (header : String) (cd : Codec)
@@ -902,17 +925,16 @@ theorem plain_body_never_rewritten (c : Ctx) (declared : List (String × Option 
         | none => exact Or.inr rfl
         | some v' =>
           left
-          simp only
-          rw [visit_str c _ _ v' hv]
-          simp [finish, J.beq_refl]
+          simp [finish, touched_str]
       · exact Or.inl rfl
 
-/-- **The body phase = spec, full strength for every body the JSON or the text decoder decodes, and for every media
-type without a decoder** (no exclusion): F-C13-8 is repaired for the "+json" family (commit 54b25f5). -/
+/-- **The body phase = spec for every body the JSON or the text decoder decodes, and for every media type without a
+decoder**: F-C13-8 is repaired for the "+json" family (commit 54b25f5); only `ReencodedUnchanged` is left. -/
 theorem body_outcome_eq_spec_json (c : Ctx) (declared : List (String × Option S)) (hw : declaredWf declared = true)
-    (header : String) (cd : Codec) (data : Stream.Bytes) (hj : decoderOf (base header) ≠ .yaml) :
+    (header : String) (cd : Codec) (data : Stream.Bytes) (hj : decoderOf (base header) ≠ .yaml)
+    (hy : ReencodedUnchanged c declared header cd data = false) :
     bodyOutcome c declared header cd data = specOutcome c declared header cd data := by
-  apply body_outcome_eq_spec_partial c declared hw header cd data
+  apply body_outcome_eq_spec_partial c declared hw header cd data _ hy
   rw [noBodyEncoder_eq]
   cases hd : decoderOf (base header) with
   | yaml => exact absurd hd hj
@@ -939,7 +961,7 @@ theorem body_outcome_eq_spec_json (c : Ctx) (declared : List (String × Option S
           simp only [decoded, hd]
           cases hv : visit c s (.str (cd.text data)) with
           | none => simp
-          | some v' => rw [visit_str c s _ v' hv]; simp [J.beq_refl]
+          | some v' => simp [touched_str]
 
 /-- Nothing is rewritten when default-setting is skipped. -/
 theorem rewrite_only_with_defaults_on (c : Ctx) (hc : c.setDefaults = false) (declared : List (String × Option S))
@@ -1011,16 +1033,17 @@ theorem rewrite_is_encoded_visit (c : Ctx) (declared : List (String × Option S)
                 · cases h
               · cases h
 
-/-- **The rewritten body is accepted as it is by the next validation** (no further rewrite): outside `BranchShift`,
-given that decoding what the encoder wrote gives the value back (trusted: encoding/json). -/
+/-- **The rewritten body is accepted by the next validation, and nothing new is written**: it is forwarded as it is, or
+re-encoded to the very same bytes — outside `BranchShift`, given that decoding what the encoder wrote gives the value
+back (trusted: encoding/json). -/
 theorem rewritten_body_is_accepted (c : Ctx) (declared : List (String × Option S)) (hw : declaredWf declared = true)
     (header : String) (cd : Codec) (data nd : Stream.Bytes)
     (h : bodyOutcome c declared header cd data = .rewrite nd)
     (hrt : ∀ v, decoded header cd (cd.enc v) = some v)
     (hx : ∀ key s v, contentGet (declared.map (·.1)) header = some key → schemaOf key declared = some (some s) →
       decoded header cd data = some v → BranchShift c s v = false) :
-    bodyOutcome c declared header cd nd = .accept := by
-  obtain ⟨key, s, v, v', hg, hs, hd, hv, rfl, _, _⟩ := rewrite_is_encoded_visit c declared header cd data nd h
+    bodyOutcome c declared header cd nd = .accept ∨ bodyOutcome c declared header cd nd = .rewrite nd := by
+  obtain ⟨key, s, v, v', hg, hs, hd, hv, rfl, _, henc⟩ := rewrite_is_encoded_visit c declared header cd data nd h
   have hfix : visit c s v' = some v' :=
     defaults_idempotent_partial c s (schemaOf_wf key declared s hw hs) v v' (hx key s v hg hs hd) hv
   rw [bodyOutcome_eq]
@@ -1028,7 +1051,9 @@ theorem rewritten_body_is_accepted (c : Ctx) (declared : List (String × Option 
     cases declared with
     | nil => simp [schemaOf] at hs
     | cons _ _ => rfl
-  simp only [hne, Bool.false_eq_true, ↓reduceIte, hg, hs, hrt v', hfix, finish, J.beq_refl, Bool.not_true, Bool.and_false]
+  simp only [hne, Bool.false_eq_true, ↓reduceIte, hg, hs, hrt v', hfix, finish]
+  have he : hasEncoder (base header) = true := henc
+  cases c.setDefaults && touched c s v' <;> simp [he]
 
 /-- **n validations = 1 validation (whole body path).**  Stream and value layer together: outside `BranchShift`,
 however often the request is validated again — any security outcome, any Content-Type, any declared content — Body,
@@ -1078,7 +1103,7 @@ theorem rewriteFails_iff_noBodyEncoder (c : Ctx) (declared : List (String × Opt
             | some v' =>
               simp only
               unfold finish
-              cases h1 : c.setDefaults <;> cases h2 : J.beq v' v <;> cases h3 : hasEncoder (base header) <;> simp
+              cases h1 : c.setDefaults <;> cases h2 : touched c s v <;> cases h3 : hasEncoder (base header) <;> simp
 
 /-- In the fragment the rewrite can only fail for a YAML body. -/
 theorem rewriteFails_only_yaml (c : Ctx) (declared : List (String × Option S)) (header : String) (cd : Codec)
@@ -1111,6 +1136,25 @@ theorem witness_no_body_encoder :
     bodyOutcome {} declared "application/yaml" cd [0] = .rewriteFails ∧
     specOutcome {} declared "application/yaml" cd [0] = .rewrite [1] := by
   decide
+
+/-- F-C13-11 (new, open): `anyOf [A: {required [q], x default 1}, B: {z: number}]` and the body `{"z":1}`: no default
+    applies and the value is forwarded as it is — but A's trial run wrote `x` into its private copy before rejecting it,
+    and that ran the `DefaultsSet` callback: a JSON body is re-encoded (model `rewrite`, spec `accept`: other bytes, same
+    value), a YAML body is rejected ("rewriting failed") although it is valid and needs no default -/
+theorem witness_discarded_candidate_touches :
+    let A : S := .obj {} ["q"] [("x", .leaf { dflt := some (.num 1) } .number)] true
+    let B : S := .obj {} [] [("z", .leaf {} .number)] true
+    let s : S := .comb {} .anyOf [A, B]
+    let v : J := .obj [("z", .num 1)]
+    let cd : Codec := { parse := fun _ => some v, yaml := fun _ => some v, text := fun _ => "", enc := fun _ => [1] }
+    visit {} s v = some v ∧ touched {} s v = true ∧ DiscardedCandidateTouches {} s v = true ∧
+    ReencodedUnchanged {} [("application/json", some s)] "application/json" cd [0] = true ∧
+    bodyOutcome {} [("application/json", some s)] "application/json" cd [0] = .rewrite [1] ∧
+    specOutcome {} [("application/json", some s)] "application/json" cd [0] = .accept ∧
+    bodyOutcome {} [("application/yaml", some s)] "application/yaml" cd [0] = .rewriteFails ∧
+    specOutcome {} [("application/yaml", some s)] "application/yaml" cd [0] = .accept ∧
+    touched {} B v = false := by
+  refine ⟨by rfl, by rfl, by rfl, by decide, by decide, by decide, by decide, by decide, by rfl⟩
 
 /-- regression (F-C13-8, first face, repaired by 54b25f5): `Content-Type: application/problem+json`, a property with a
     default is absent: the body is forwarded re-encoded with the default — model = spec (before the repair the model
